@@ -443,7 +443,8 @@ theorem mkRA_dom (aid : Int) (rid chr g t : String) (mm : Bool) (pen : Rat)
   exact ⟨fun s hs => by cases hs; exact hg, fun s hs => by cases hs; exact ht⟩
 
 -- the hypotheses of `reuse_reproduces_outputs` are met by the concrete experiment, in both memory modes ...
-example : InternOk exEnv exChroms ∧ InDomain exChroms ∧ MemoryModeOk true exChroms ∧ MemoryModeOk false exChroms ∧
+-- (named: Props/C15Printers.lean uses it for the non-vacuity of `files_reproduce_printed`)
+theorem exChroms_hyps : InternOk exEnv exChroms ∧ InDomain exChroms ∧ MemoryModeOk true exChroms ∧ MemoryModeOk false exChroms ∧
     (streamOf exEnv exChroms).length < ser_TERMINATION_INT ∧ ChrStamped exEnv exChroms ∧
     (collectReads exEnv true ["NA"] 0 exChroms).isSome = true ∧
     (collectReads exEnv false ["NA"] 0 exChroms).isSome = true := by
